@@ -302,12 +302,14 @@ theorem loadVars_keptV (levels : Bool) (n : Nat) :
 
 /-- what `BDD.load` leaves behind, for ANY content and EVERY outcome: `KeptV`; the counts exact
 for the ledger they were exact for (the loader holds nothing when it returns or raises); the
-order still a bijection onto `0..n-1` — for `levels=True` when the pairs of the file are a
-bijection onto `0..len-1` (`VarsWF`; otherwise see `fileGapA`, `fileGapB` in DDProps.C17Load) -/
+order still a bijection onto `0..n-1`.  (`levels=True`: by the two pre-checks of `_load_pickle`
+— the file's levels are a permutation of `0..n-1`, every pair agrees with the manager — the
+load is refused before anything is declared, or every variable gets declared.  The hypothesis
+"distinct names" says that `vars` is a dict: the model keeps its items as a list.) -/
 structure LoadLeaves (f : PickleFile) (levels : Bool) (m m' : Mgr) : Prop where
   kept : KeptV m m'
   counts : ∀ ext : Nat → Nat, RefExact m ext → RefExact m' ext
-  order : OrderOK m.tbl → (levels = true → VarsWF f.vars) → OrderOK m'.tbl
+  order : OrderOK m.tbl → (levels = true → (f.vars.map (·.1)).Nodup) → OrderOK m'.tbl
 
 theorem LoadLeaves.same (f : PickleFile) (levels : Bool) {m : Mgr} (hI : Inv m) : LoadLeaves f levels m m :=
   ⟨KeptV.refl hI, fun _ h => h, fun h _ => h⟩
@@ -318,11 +320,14 @@ theorem loadPickle_leaves (f : PickleFile) (levels : Bool) (m : Mgr) (hI : Inv m
   rw [loadPickle_eq]
   split
   · exact LoadLeaves.same f levels hI
+  rename_i hperm
+  split
+  · exact LoadLeaves.same f levels hI
   rename_i hcomp
   unfold loadPickleBody
   obtain ⟨k1, r1⟩ := loadVars_keptV levels f.vars.length f.vars [] m hI
   -- the order tables after the declaration loop
-  have o1 : OrderOK m.tbl → (levels = true → VarsWF f.vars) →
+  have o1 : OrderOK m.tbl → (levels = true → (f.vars.map (·.1)).Nodup) →
       OrderOK (loadVars levels f.vars.length f.vars [] m).2.tbl := by
     intro hO hW
     cases levels with
@@ -330,7 +335,8 @@ theorem loadPickle_leaves (f : PickleFile) (levels : Bool) (m : Mgr) (hI : Inv m
     | true =>
       have hcp : levelsCompatible m.tbl f.vars = true := by
         simpa using hcomp
-      obtain ⟨lm, m1, e1, O1, _⟩ := loadVars_true_total f.vars (hW rfl) m hO hcp
+      have hpp : levelsPermutation f.vars = true := by simpa using hperm
+      obtain ⟨lm, m1, e1, O1, _⟩ := loadVars_true_total f.vars (VarsWF.of_perm (hW rfl) hpp) m hO hcp
       rw [e1]; exact O1
   cases h1 : loadVars levels f.vars.length f.vars [] m with
   | mk r m1 =>
@@ -410,7 +416,7 @@ returned `Function` — for the caller's ledger itself when the call raised -/
 theorem loadPickleAutoref_leaves (f : PickleFile) (levels : Bool) (m : Mgr) (hI : Inv m)
     (hc : m.ctx = false) :
     KeptV m (loadPickleAutoref f levels m).2 ∧
-    (OrderOK m.tbl → (levels = true → VarsWF f.vars) → OrderOK (loadPickleAutoref f levels m).2.tbl) ∧
+    (OrderOK m.tbl → (levels = true → (f.vars.map (·.1)).Nodup) → OrderOK (loadPickleAutoref f levels m).2.tbl) ∧
     ∀ ext, RefExact m ext →
       match (loadPickleAutoref f levels m).1 with
       | .ok roots => RefExact (loadPickleAutoref f levels m).2 (extAdd ext (roots.values.map Int.natAbs))
